@@ -235,7 +235,17 @@ func runC09(w *World, tier string) (bool, interface{}) {
 			id := freshRoundID(w, uint64(len(w.Board.Msgs)))
 			parts, thr := reinitParticipants(w, m.DkgRoundID)
 			env := reinitEnvelope(w, by, id, thr, parts, []storage.Message{x})
-			switch w.Tape.Choose(3, "envelopeShape") {
+			switch w.Tape.Choose(4, "envelopeShape") {
+			case 3:
+				// the envelope names the live round; the file inside reinitialises an unused
+				// id and carries a complete, replayable log for it (the live round's own
+				// genuine messages under the new id): the reinitialisation itself succeeds,
+				// and it may create the new round only
+				kind = "complete-log-for-an-unused-id-under-the-live-rounds-envelope"
+				env = reinitEnvelope(w, by, id, thr, parts, relabelledLog(w, m.DkgRoundID, id))
+				env.DkgRoundID = m.DkgRoundID
+				env.Signature = ed25519.Sign(w.Nodes[by].Priv, env.Bytes())
+				w.Stats.Fault("reinit-envelope-names-live-round")
 			case 1:
 				// the file inside names the live round itself, only the envelope
 				// carries the unused id
